@@ -282,6 +282,11 @@ func (p *c06) Exec(t *testing.T, scAny any) Outcome {
 					}
 					var texts []string
 					for _, a := range op.Addrs {
+						if op.Kind == "ignoreinvalid" && a.Name == "" && len(a.Local)%2 == 0 {
+							// an address without display name, spelled without angle brackets
+							texts = append(texts, bare(a))
+							continue
+						}
 						texts = append(texts, addrText(a))
 					}
 					all := append(append([]string(nil), texts...), op.Junk...)
